@@ -282,6 +282,10 @@ type caseB struct {
 	w       *benchfmt.Writer
 	mutated bool
 	cr      bool
+	// intent: keys the tool assigned through Result.SetConfig since they were last made file
+	// configuration — internal by the API contract, whatever the File flag of the object says;
+	// consumed by the next write
+	intent  []string
 	binDiff bool // stdout of the built benchfilter binary differs from the in-process replay
 }
 
@@ -303,9 +307,21 @@ func (c *caseB) write(rec benchfmt.Record) {
 		s.obs = observe(rec)
 		s.isResult = true
 		c.strs = append(c.strs, append([]byte(nil), rec.Name...))
+		for _, k := range c.intent {
+			if _, ok := rec.ConfigIndex(k); ok {
+				s.internal = append(s.internal, k)
+			}
+		}
+		c.intent = nil
 		for _, cf := range rec.Config {
 			if !cf.File {
-				s.internal = append(s.internal, cf.Key)
+				dup := false
+				for _, k := range s.internal {
+					dup = dup || k == cf.Key
+				}
+				if !dup {
+					s.internal = append(s.internal, cf.Key)
+				}
 			} else if bytes.HasSuffix(cf.Value, []byte("\r")) {
 				c.cr = true
 			}
